@@ -10,6 +10,7 @@ fi
 mkdir -p out/bin evidence coq/gen
 (cd tools/genconsts && go run . /repo) > coq/gen/Consts.v.new
 if ! cmp -s coq/gen/Consts.v.new coq/gen/Consts.v; then mv coq/gen/Consts.v.new coq/gen/Consts.v; else rm coq/gen/Consts.v.new; fi
+sh tools/mkcoqproject.sh
 (cd coq && coq_makefile -f _CoqProject -o Makefile >/dev/null && timeout 7200 make -j16)
 cp /repo/go.sum harness/go.sum
 (cd harness && go build -tags verif -o ../out/bin/vharness .)
